@@ -173,6 +173,24 @@ partial def insertSorted (k : Bytes) (s : String) : List (Bytes × String) → L
   | [] => [(k, s)]
   | (k', s') :: r => if bytesLt k k' then (k, s) :: (k', s') :: r else (k', s') :: insertSorted k s r
 
+partial def showJson : Json → String
+  | .null => "jnull"
+  | .bool true => "jtrue"
+  | .bool false => "jfalse"
+  | .int n => s!"(ji {n})"
+  | .float b => s!"(jf {b.toNat})"
+  | .str s => s!"(js {hex s})"
+  | .arr xs => "(ja" ++ String.join (xs.map (fun x => " " ++ showJson x)) ++ ")"
+  | .obj kvs => "(jo" ++ String.join (kvs.map (fun kv => s!" ({hex kv.1} {showJson kv.2})")) ++ ")"
+
+/-- what the serializer writes, as an ordered token tree in the JSON wire grammar -/
+partial def showJOut : JOut → String
+  | .str s => s!"(js {hex s})"
+  | .num n => s!"(ji {n})"
+  | .arr xs => "(ja" ++ String.join (xs.map (fun x => " " ++ showJOut x)) ++ ")"
+  | .obj kvs => "(jo" ++ String.join (kvs.map (fun kv => s!" ({hex kv.1} {showJOut kv.2})")) ++ ")"
+  | .raw j => showJson j
+
 /-- canonical text of a value: the same grammar the harness prints; map entries sorted by key. -/
 partial def showValue : Value → String
   | .null => "n"
